@@ -12,8 +12,11 @@ from concurrent.futures import ThreadPoolExecutor
 REPO = os.environ.get('PYTHONPATH', '/repo').split(os.pathsep)[0]
 PY = sys.executable
 
-# the separators are a blank, or a newline where a nested (subproject) log line was stripped
-MSG_RE = re.compile(r'(?:^|(?<=\n))Message: #(\w+)(?: |\n)(.*?)(?: |\n)\$(?=\n)', re.S)
+# Framing of a tagged message:  Message: #<tag> <value> $   ('#', '$', '|' never occur in data).
+# Inside a subproject mlog strips every line, so a separator may show up as a newline, and for a
+# value that is empty after stripping (e.g. '\n') the two separators collapse into one: that case is
+# tried first (lazy optional group).  A value never runs into the next message.
+MSG_RE = re.compile(r'(?:^|(?<=\n))Message: #(\w+)(?:(?: |\n)((?:(?!\nMessage: #).)*?))??(?: |\n)\$(?=\n)', re.S)
 ERR_RE = re.compile(r'^((?:[A-Za-z0-9_]+/)*meson\.build):(\d+):(\d+): ERROR: (.*)$', re.M)
 ERR0_RE = re.compile(r'^ERROR: (.*)$', re.M)
 NEST_RE = re.compile(r'^(?:[A-Za-z0-9_]+\| ?)+', re.M)
@@ -21,7 +24,7 @@ NEST_RE = re.compile(r'^(?:[A-Za-z0-9_]+\| ?)+', re.M)
 
 def extract_msgs(stdout):
     """tagged messages  `message('#<tag>', value..., '$')`  ->  [[tag, text], ...]"""
-    return [[m.group(1), m.group(2)] for m in MSG_RE.finditer(stdout)]
+    return [[m.group(1), m.group(2) or ''] for m in MSG_RE.finditer(stdout)]
 
 
 def canon(rc, stdout, stderr, src=''):
